@@ -106,6 +106,19 @@ CHECKS = {
     note=("Trusted: z3, interpreter, stub contracts of C04. One request/response at a time (histories and threads are C10-C13). The pinned tree's "
           "defect (unencodable reply tears the connection down) was found here and repaired in /repo."),
     technique="symbolic execution of the Python AST incl. the real serializer + z3 (LIA); replay on CPython"),
+ "C12": dict(
+    category="model_checking", design_ref="DESIGN.md sections 2.3 and 4 (C12)", engine="engine-B",
+    text=("Schedule-symbolic bounded model checking of the real Connection._send: its AST is lowered to a statement-level control-flow graph "
+          "at every run, the queue/try-lock/channel primitives get a bit-vector semantics, and the transition relation is unrolled with the "
+          "schedule as solver variables; z3 (bit-blasted, SAT core, schedule cubes in parallel) decides over ALL interleavings at source-line "
+          "granularity that writers never overlap, every message is written exactly once in per-thread order, nothing stays queued, the lock "
+          "is released and no sender blocks; the unwinding assertion is checked, not assumed. Counterexample schedules are replayed on real "
+          "threads parked at line events (sys.settrace) and only reported if the real objects show the violation; the model is validated every "
+          "run by predicting the line traces of seeded random schedules executed on the real code."),
+    note=("Trusted: z3; atomicity of one source statement and of list.append/pop/Lock operations (GIL contract); the CFG lowering (validated by the "
+          "conformance obligation). Bounds: quick 2x1 exhaustive, 1x1 with re-entrant send exhaustive, 2x1 with re-entrant send and <=3 pre-emptions; "
+          "thorough adds 2x1 re-entrant exhaustive, 2x2 exhaustive and 3x1 with <=3 pre-emptions. More threads/messages and write failures are outside."),
+    technique="bounded model checking over all schedules (AST -> CFG -> bit-vector transition relation, z3 SAT) + schedule replay on real threads"),
 }
 
 NOT_YET = {}
